@@ -136,3 +136,22 @@ CHECKS["C06"]["rule"] = (
     "Oracle: finite, >=0, d(s,s)=0, positivity for separated unequal states, <= getMaximumExtent(), symmetry if claimed, triangle if "
     "isMetricSpace(), weighted-sum law at every compound node. Non-trivial = at least one of the two relations is not 'independent'; "
     "distinct = consumed byte prefix.")
+
+CHECKS["C07"] = dict(
+    src="harness/C07_interp.cpp",
+    cases=dict(quick=600000, thorough=8000000),
+    fuzz=dict(runs=4000000, maxlen=600),
+    rule="Case = generated space (as C06) x in-bounds pair (from; to related by {independent, identical, 1-ulp adjacent, nearly coincident, "
+         "antipodal / seam-crossing, one leaf differs}) x 1..4 values of t and (s,u) from {uniform, 0, 1, 0.5, 1e-12..1e-3, 1-(1e-12..1e-3)}. "
+         "Oracle: interpolate(0)=from and interpolate(1)=to leaf-wise within tolerance; every output finite and inside the bounds decided on raw "
+         "coordinates (<=4 ulp past a bound); output aliasing from / to gives the bit-identical serialized state; re-parameterisation "
+         "interp(interp(a,b,s),b,u) == interp(a,b,s+(1-s)u) leaf-wise (discrete +-1); for geodesic spaces d(from,interp(t)) = t*d(from,to). "
+         "Non-trivial = the pair is in an adversarial relation class or the space is a compound of nesting depth >=2; distinct = consumed bytes.",
+    technique="property-based testing of interpolation laws over generated spaces and adversarial pairs; libFuzzer in thorough",
+    level_text="Generated spaces and adversarial pairs are checked against the five interpolation laws of the property with the tolerance "
+               "policy of DESIGN.md section 3. Exploration-level.",
+    level_note="Trusted: harness traversal of raw coordinates; tolerances: 1e-9 relative (R^n, time, angles), SO(3) grain 1e-4 rad, "
+               "Dubins/Reeds-Shepp 1e-5*(1+length); glued surfaces (Mobius, Klein) may agree through their own distance at the glue line.",
+    assumptions=["both endpoints are in bounds (constructed, then confirmed with satisfiesBounds)",
+                 "geodesic proportionality only for R^n, SO2, SO3, SE2, SE3, Time, Torus and compounds/wrappers of them (as stated)"],
+)
